@@ -175,7 +175,8 @@ pub fn export_cmd(dir: &str) -> i32 {
     let mut loaded: Vec<(String, rcgen::KeyPair)> = Vec::new();
     // the large RSA keys (signing cost): one automatic and one explicit-algorithm entry point, one digest; 8192 bits in the thorough tier
     let all_slow = std::env::var("VERIF_C16_SLOW").map(|v| v == "all").unwrap_or(false);
-    for z in zoo.iter().filter(|z| z.name.contains("_1") && (!z.kind.is_slow() || all_slow || z.kind == KeyKind::Rsa6144)) {
+    // (the first key of each kind, and the keys chosen for their bytes or framing: _6.., _7.., _8..)
+    for z in zoo.iter().filter(|z| (z.name.contains("_1") || z.name.contains("_6") || z.name.contains("_7") || z.name.contains("_8")) && (!z.kind.is_slow() || all_slow || z.kind == KeyKind::Rsa6144)) {
         for e in super::c11::ENTRIES {
             if z.kind.is_slow() && !matches!(e, super::c11::Entry::TryFromSlice | super::c11::Entry::FromDerAlg) {
                 continue;
@@ -236,6 +237,7 @@ pub fn run(prop: &str, tier: &str, replay: Option<&str>) -> i32 {
     let mut rep = Report::new(prop, tier);
     rep.assume("the `fips` feature is outside the advertised set of the statement and cannot be built offline here");
     rep.assume("configurations are judged by `cargo check --offline --locked` on /repo's working tree with a harness-owned target directory");
+    let known = load_known(prop);
     let root = verif_root();
     let scratch = root.join("out").join(format!("c16-{}", std::process::id()));
     let _ = std::fs::create_dir_all(&scratch);
@@ -382,7 +384,12 @@ pub fn run(prop: &str, tier: &str, replay: Option<&str>) -> i32 {
                 out.transitions = 3;
                 out.digest = fnv(k.as_bytes());
                 if v != "OK" {
-                    out.findings.push(Finding::new("KEY-INTEROP", format!("{} -> {}", from, to), format!("{}: {}", k, v)));
+                    let f = vec![Finding::new("KEY-INTEROP", format!("{} -> {}", from, to), format!("{}: {}", k, v))];
+                    // known finding F22: matched by rule, direction and the input (an EC PKCS#8 fixture without embedded public key
+                    // that the importer refuses to parse); anything else stays a violation
+                    let (viol, kn) = split_known(&known, f, &|p| p == "exported_ec_pkcs8_lacks_embedded_public_key" && k.contains("np.pkcs8.der") && v.contains("CouldNotParseKeyPair"));
+                    out.findings = viol;
+                    out.known = kn;
                 }
                 sec.record(&|| format!("{} exported by {} loaded by {}", k, from, to), &|| serde_json::json!({"key": k}), out);
             }
